@@ -13,7 +13,7 @@ pub static PROP: Prop = Prop {
     id: "C11",
     title: "Imperative editing of lax diagrams refines a plain list model",
     check,
-    max_tape: (700, 1400),
+    max_tape: (700, 2400),
     cases: (60_000, 1_000_000),
     both_profiles: false,
     rule: "histories of up to 25 (thorough 80) builder calls (new_node, new_edge, new_operation, add_edge_source/target, unify, delete_nodes, delete_edges, map/with nodes/edges, interface assignment) with valid, duplicated and out-of-range identifiers for the deletions, starting from the empty diagram, a singleton or a generated diagram; the model replays each step with Vec operations and all public fields are compared after every step; serde round trip and JSON shape at the end; non-trivial = the history contains a node deletion after an edit that created references (incidence, interface or pending pair) to a deleted node; distinct = hash of the start diagram and the history",
